@@ -55,6 +55,27 @@ type FS struct {
 	renames int // os.Rename calls so far (each is one rename syscall natively)
 	crashedAt int
 	crashPart int
+	// file footprint (C19): the session on whose behalf file-system calls are
+	// being made, and who last created, truncated, wrote, renamed or removed
+	// each path. A path written on behalf of two sessions is state they share.
+	owner   string
+	touched map[string]string
+}
+
+// fsTouch records a mutating file-system call on path under the current owner.
+func (ex *Exec) fsTouch(path Str) {
+	fs := ex.fs()
+	if fs.owner == "" {
+		return
+	}
+	if fs.touched == nil {
+		fs.touched = map[string]string{}
+	}
+	key := path.Describe()
+	if prev, ok := fs.touched[key]; ok && prev != fs.owner {
+		ex.oblige(ex.ts.False(), "footprint: file "+key+" is written on behalf of two sessions ("+prev+", "+fs.owner+")")
+	}
+	fs.touched[key] = fs.owner
 }
 
 func (ex *Exec) fs() *FS {
@@ -218,6 +239,7 @@ func (ex *Exec) openFileModel(name Str, flag int) Value {
 			return Tuple{Ptr{}, ex.pathError("open", name, "ErrNotExist")}
 		}
 		ex.crashPoint("create " + name.Describe())
+		ex.fsTouch(name)
 		f = &fsFile{path: name, exists: true}
 		fs.files = append(fs.files, f)
 	} else {
@@ -226,6 +248,7 @@ func (ex *Exec) openFileModel(name Str, flag int) Value {
 		}
 		if flag&oTRUNC != 0 {
 			ex.crashPoint("truncate " + name.Describe())
+			ex.fsTouch(name)
 			f.data = nil
 		}
 	}
@@ -243,6 +266,7 @@ func (ex *Exec) writeModel(of *openFile, data []Value) Value {
 	if of.closed || !of.wr {
 		return Tuple{ex.ts.Const(64, 0), ex.pathError("write", of.f.path, "ErrClosed")}
 	}
+	ex.fsTouch(of.f.path)
 	if fs.crashOn && len(data) > 0 {
 		fs.step++
 		fs.log = append(fs.log, "write "+of.f.path.Describe())
@@ -508,6 +532,8 @@ func initOsStubs() {
 			}
 		}
 		ex.crashPoint("rename " + from.Describe() + " -> " + to.Describe())
+		ex.fsTouch(from)
+		ex.fsTouch(to)
 		// atomic replace
 		if old := ex.findFile(to); old != nil && old != f {
 			old.exists = false
@@ -525,6 +551,7 @@ func initOsStubs() {
 			return ex.pathError("remove", name, "ErrNotExist")
 		}
 		ex.crashPoint("remove " + name.Describe())
+		ex.fsTouch(name)
 		f.exists = false
 		return Iface{}
 	})
